@@ -70,7 +70,7 @@ var oddScripts = [][2]string{
 	{"ecmascript", `_.out(Object.defineProperty({}, "a", {enumerable: true, get: function() { throw new Error("boom"); }})); return _.bindings;`},
 	{"ecmascript", `return function() {};`},
 	{"ecmascript", `return new Date(0);`},
-	{"ecmascript", `var a = []; a[200000] = 1; return {a: a};`},
+	{"ecmascript", `var a = []; a[3000] = 1; return {a: a};`},
 	{"ecmascript", `return {f: function() {}, u: undefined, s: Symbol ? "sym" : 1};`},
 	{"ecmascript", `_.out(undefined); _.out(function() {}); return _.bindings;`},
 	{"ecmascript", `throw null;`},
